@@ -720,7 +720,7 @@ func checkInterpreterWidths(c *core.Ctx, rule string) {
 	// (b) execution arms: accessor width == kind / type-tag width
 	var exec *ast.FuncDecl
 	core.AllFuncDecls(p, func(fd *ast.FuncDecl) {
-		if fd.Name.Name == "callNativeFunc" {
+		if fd.Name.Name == interpExecLoopName(p) {
 			exec = fd
 		}
 	})
